@@ -2,7 +2,7 @@
 import importlib
 import traceback
 
-GENERATORS = ['gen_fixups']
+GENERATORS = ['gen_fixups', 'gen_offset']
 
 
 def generate_all() -> dict:
